@@ -47,7 +47,7 @@ the numbering of instances.  OPEN (and false on the unchanged tree in django mod
 `known_findings.json`, C01). -/
 def C01_full : Prop :=
   ∀ (env : Env) (fuel : Nat) (page : List Node) (vars : Layer) (toks : List Tok) (w : World),
-    (renderNodes env fuel page (rebase [[], vars])).run.run {} = (.ok toks, w) →
+    (renderNodes env fuel page (rootCtx vars)).run.run {} = (.ok toks, w) →
     ∃ toks' s, (Djc.SpecRender.sNodes env fuel page (.mk [[], vars] [] none [])).run {} = .ok (toks', s) ∧
       toks.length = toks'.length
 
